@@ -873,7 +873,7 @@ func acceptFeature(m *Model, err error) string {
 func runC08(c *eng.Ctx) {
 	BuildDoors = true // Build / BuildWithContext / BuildWithOptions in turn (a function of the spec)
 	cr := &caseRunner{c: c, prop: "C08"}
-	defer func() { RunLateRegistration(c, cr.next); RunBuildTimeScope(c, cr.next); RunVariadic(c, "C08", cr.next); RunZeroSingleResults(c, cr.next); RunRefusedThenValid(c, "C08", cr.next) }()
+	defer func() { RunLateRegistration(c, cr.next); RunBuildTimeScope(c, cr.next); RunVariadic(c, "C08", cr.next); RunZeroSingleResults(c, cr.next); RunRefusedThenValid(c, "C08", cr.next); RunRemovedInitializers(c, cr.next) }()
 	exec := func(idx int, s *Spec, m *Model, kind string) {
 		r := NewRun(s, m, nil, nil)
 		r.Build()
